@@ -207,7 +207,8 @@ class Gen:
         if c < 0.3 and names:
             return r.choice(names)
         if c < 0.55 or d > 1:
-            return repr(r.choice(['a', 'bc', "it's", 'say "hi"', 'x\ty', 'new\nline', '{}', 'é', '']))
+            return repr(r.choice(['a', 'bc', "it's", 'say "hi"', 'x\ty', 'new\nline', '{}', 'é', '', 'C:\\new\\table.txt', 'a\\tb',
+                                  '\\', '\\d+\\.', 'nul\x007', 'tab\\', '%s', '\\x41']))
         if c < 0.8:
             self.features.add('fstring')
             spec = r.choice(['', ':>4', ':03d', '!r', '!s', ':{w}'])
@@ -251,7 +252,7 @@ class Gen:
         self.budget -= 1
         kinds = ['assign'] * 4 + ['print'] * 3 + ['aug'] * 2 + ['unpack', 'substore', 'if', 'if', 'for', 'for', 'while',
                  'def', 'def', 'class', 'walrus', 'import', 'dictops', 'exprstmt', 'multi', 'swap', 'nestunpack',
-                 'attr', 'lambdadef']
+                 'attr', 'lambdadef', 'scopechain']
         if self.weights:
             kinds += [k for k, w in self.weights.items() for _ in range(w)]
         if sc.loop_depth:
@@ -438,6 +439,61 @@ class Gen:
             self.emit(ind, f'{n} = lambda {a}={self.int_expr(sc)}, /: (lambda: {a} * 2)()')
             self.emit(ind, f'print({n}(), {n}(3))')
 
+    def s_scopechain(self, sc, ind, depth):
+        """A chain of 2-4 nested functions that all talk about one module-level name: each level binds it
+        (parameter / local), reads it, declares it global or nonlocal and updates it, or ignores it."""
+        m = sc.module()
+        cands = [n for n, t in m.vars.items() if t == INT and n not in m.protected]
+        if sc.kind != 'module' or not cands:
+            return self.s_assign(sc, ind, depth)
+        self.features.add('scope-chain')
+        r = self.r
+        x = r.choice(cands)
+        levels = r.randint(2, 4)
+        names = [self.fresh('sf') for _ in range(levels)]
+        owner_seen = False
+        cur = ind
+        for lv in range(levels):
+            role = r.choice(['param', 'local', 'read', 'global', 'ignore'] + (['nonlocal'] if owner_seen else []))
+            if role == 'param':
+                self.emit(cur, f'def {names[lv]}({x}):')
+                self.emit(cur + 1, f'print({lv}, {x})')
+                owner_seen = True
+            else:
+                self.emit(cur, f'def {names[lv]}():')
+                if role == 'local':
+                    self.emit(cur + 1, f'{x} = {r.randint(100, 199)}')
+                    self.emit(cur + 1, f'print({lv}, {x})')
+                    owner_seen = True
+                elif role == 'read':
+                    self.emit(cur + 1, f'print({lv}, {x})')
+                elif role == 'global':
+                    self.emit(cur + 1, f'global {x}')
+                    self.emit(cur + 1, f'{x} += {r.randint(1, 9)}')
+                    self.emit(cur + 1, f'print({lv}, {x})')
+                    owner_seen = False
+                elif role == 'nonlocal':
+                    self.emit(cur + 1, f'nonlocal {x}')
+                    self.emit(cur + 1, f'{x} += {r.randint(1, 9)}')
+                    self.emit(cur + 1, f'print({lv}, {x})')
+                else:
+                    self.emit(cur + 1, 'pass')
+            names[lv] = (names[lv], role)
+            cur += 1
+        # calls, innermost first while unwinding
+        for lv in range(levels - 1, -1, -1):
+            cur -= 1
+            nm, role = names[lv]
+            arg = str(r.randint(200, 299)) if role == 'param' else ''
+            self.emit(cur + (1 if lv > 0 else 0) - (1 if lv > 0 else 0) + (0), '')
+            self.lines.pop()
+            self.emit(cur if lv == 0 else cur, f'{nm}({arg})') if lv == 0 else self.emit(cur, f'{nm}({arg})')
+            if lv > 0:
+                pr, prole = names[lv - 1]
+                if prole in ('param', 'local', 'read', 'global', 'nonlocal'):
+                    self.emit(cur, f'print({lv - 1}, "after", {x})')
+        self.emit(ind, f'print("chain", {x})')
+
     def s_if(self, sc, ind, depth):
         self.features.add('if')
         self.emit(ind, f'if {self.bool_expr(sc)}:')
@@ -564,7 +620,15 @@ class Gen:
         r = self.r
         name = self.fresh('f')
         npar = r.randint(0, 3)
-        params = [self.fresh('a') for _ in range(npar)]
+        params = []
+        for _ in range(npar):
+            outer_ints = [n for n in sc.visible(INT) if n not in params and n not in sc.protected]
+            if outer_ints and r.random() < 0.2 and sc.kind != 'class':
+                # a parameter that shadows a variable of an enclosing scope
+                params.append(r.choice(outer_ints))
+                self.features.add('shadowing-parameter')
+            else:
+                params.append(self.fresh('a'))
         sig = []
         for i, p in enumerate(params):
             sig.append(p)
